@@ -456,7 +456,7 @@ class Exec:
         from . import builtins_model as B
         if name in B.BUILTINS:
             return VFunc(name, impl=B.BUILTINS[name])
-        if name in EXC_NAMES:
+        if name in EXC_NAMES or name in ("str", "list", "tuple", "int", "float", "dict"):
             return VFunc(name)
         sp = self.ctx.registry.specs.get(name) if self.ctx.registry else None
         if sp is not None:
@@ -730,14 +730,11 @@ class Exec:
         if isinstance(a, VSeq) and isinstance(b, VNum) and isinstance(op, ast.Mult):
             return self.replicate(st, a, b)
         if isinstance(a, VSet) and isinstance(b, VSet) and isinstance(op, (ast.BitOr, ast.BitAnd, ast.Sub)):
-            c = z3.Const(S.fresh_name("c"), S.PyStr)
             if isinstance(op, ast.BitOr):
-                body = z3.Or(a.term[c], b.term[c])
-            elif isinstance(op, ast.BitAnd):
-                body = z3.And(a.term[c], b.term[c])
-            else:
-                body = z3.And(a.term[c], z3.Not(b.term[c]))
-            return VSet(z3.Lambda([c], body))
+                return VSet(S.lam(lambda c: z3.Or(a.term[c], b.term[c]), a.term, b.term))
+            if isinstance(op, ast.BitAnd):
+                return VSet(S.lam(lambda c: z3.And(a.term[c], b.term[c]), a.term, b.term))
+            return VSet(S.lam(lambda c: z3.And(a.term[c], z3.Not(b.term[c])), a.term, b.term))
         if isinstance(a, VDict) and isinstance(b, VDict) and isinstance(op, ast.BitOr):
             raise OutOfReach("dict union")
         raise OutOfReach(f"binop {type(op).__name__} on {a!r},{b!r}")
@@ -1011,10 +1008,12 @@ class Exec:
         return outs
 
     def feasible(self, st: State, extra=None):
+        # pruning only: `feasible` may always be answered True; quantified facts are left out (they make the query slow)
+        from .solve import _has_quantifier
         s = z3.Solver()
-        s.set("timeout", 2000)
+        s.set("timeout", 600)
         s.add(*st.pc)
-        s.add(*st.facts[-60:])
+        s.add(*[f for f in st.facts[-40:] if not _has_quantifier(f)])
         s.add(*S.str_distinct_facts())
         if extra is not None:
             s.add(extra)
